@@ -290,6 +290,8 @@ def cell_case(draw, profile=None):
 
 # ===================================================================== E2
 PROIDS = ['pra', 'prb', 'prc']
+BL_PATTERNS = ['pra.*', 'prb.aff0', 'prc.aff1', '*.aff2', 'pr?.aff0',
+               '*.aff0', 'pr[ab].*']
 TRAIT_NAMES = ['ta', 'tb', 'tc']
 
 
@@ -306,6 +308,8 @@ def e2_server_spec(draw, nparts, up=True):
         # a self-detected trait that is not in the published /traits list;
         # only servers of the initial topology may carry it (see E2 notes)
         'tx': draw(st.sampled_from([False, False, True])) if not up
+        else False,
+        'ty': draw(st.sampled_from([False, False, False, True])) if not up
         else False,
     }
 
@@ -344,7 +348,7 @@ def e2_op_strategies(nparts, ngroups, profile):
         if profile.get('lease', True) else st.none()
     traits = st.sampled_from(
         [[], [], [], ['ta'], ['tb'], ['ta', 'tb'], ['nosuch'], ['tx'],
-         ['ta', 'tx']]) \
+         ['ta', 'tx'], ['ty'], ['tx', 'ty']]) \
         if profile.get('traits', True) else st.just([])
     group = st.one_of(st.none(), st.none(),
                       st.integers(0, max(0, ngroups - 1))) \
@@ -372,7 +376,7 @@ def e2_op_strategies(nparts, ngroups, profile):
                           st.sampled_from([0, 1, 5, 50, 100])).map(list),
         'srv': st.tuples(st.just('srv'), st.integers(0, 8),
                          e2_server_spec(nparts, up=False).map(
-                             lambda sp: dict(sp, tx=False))).map(list),
+                             lambda sp: dict(sp, tx=False, ty=False))).map(list),
         'rmsrv': st.tuples(st.just('rmsrv'), idx).map(list),
         'down': st.tuples(st.just('down'), idx).map(list),
         'up': st.tuples(st.just('up'), idx, st.one_of(
@@ -395,13 +399,26 @@ def e2_op_strategies(nparts, ngroups, profile):
                          st.integers(0, 4)).map(list),
         'rmidg': st.tuples(st.just('rmidg'),
                            st.integers(0, max(0, ngroups - 1))).map(list),
-        'bl': st.tuples(st.just('bl'), st.lists(st.sampled_from(
-            ['pra.*', 'prb.aff0', 'prc.aff1', '*.aff2', 'pr?.aff0']),
-            max_size=2)).map(list),
+        'bl': st.tuples(st.just('bl'), st.lists(st.sampled_from(BL_PATTERNS),
+                                                max_size=2)).map(list),
+        # macro: entries are added to the blacklist, a cycle runs, then some
+        # are cleared while others (possibly matching the same instances)
+        # stay
+        'blchurn': st.tuples(
+            st.lists(st.sampled_from(BL_PATTERNS), min_size=1, max_size=2),
+            st.lists(st.sampled_from(BL_PATTERNS), min_size=1, max_size=2))
+        .map(lambda t: ['macro', [['bl', t[0] + t[1]], ['cycle'],
+                                  ['bl', t[0]], ['cycle']]]),
         'blackout': st.tuples(st.just('blackout'), idx,
                               st.booleans()).map(list),
         'cellev': st.tuples(st.just('cellev'), st.integers(0, 3),
                             st.booleans()).map(list),
+        'cellrm': st.tuples(st.just('cellrm'), st.integers(0, 3)).map(list),
+        # macro: a new master starts while an instance has placement records
+        # under two servers
+        'dupstart': st.tuples(idx, idx)
+        .map(lambda t: ['macro', [['cycle'], ['duprecord', t[0], t[1]],
+                                  ['restart'], ['cycle']]]),
         'running': st.tuples(st.just('running'), idx).map(list),
         'renew': st.tuples(st.just('renew'), idx).map(list),
         'adv': st.tuples(st.just('adv'), st.sampled_from(
@@ -477,10 +494,11 @@ E2_WEIGHTS = {
     'app': 10, 'rm': 2, 'rmlast': 1, 'finish': 1, 'prio': 1, 'srv': 1, 'rmsrv': 1,
     'down': 2, 'up': 2, 'downseq': 0, 'downrestart': 0, 'freezeflip': 0,
     'stalemark': 0, 'rmsrvrace': 0, 'priorm': 0, 'shrink': 0, 'flap': 0,
-    'bouncemove': 0, 'idgrestart': 0, 'allocscrash': 0,
+    'bouncemove': 0, 'idgrestart': 0, 'allocscrash': 0, 'blchurn': 0,
+    'dupstart': 0,
     'reboot': 1, 'resize': 1, 'shave': 1, 'repart': 1, 'reparent': 1,
     'state': 1, 'allocs': 1, 'idg': 1, 'rmidg': 1, 'bl': 1, 'blackout': 1,
-    'cellev': 1, 'running': 1, 'adv': 2, 'adv_ret': 1, 'tickreboots': 1,
+    'cellev': 1, 'cellrm': 0, 'running': 1, 'adv': 2, 'adv_ret': 1, 'tickreboots': 1,
     'checkreboot': 1, 'integrity': 1, 'enq': 1, 'proc': 1, 'ev': 3,
     'sched': 3, 'cycle': 6, 'restart': 1,
 }
@@ -498,7 +516,8 @@ def master_case(draw, profile=None):
         for _r in range(draw(st.integers(1, profile.get('max_racks', 2)))):
             racks.append(draw(st.lists(
                 e2_server_spec(nparts, up=False).map(
-                    lambda sp: dict(sp, up=True) if sp.get('tx') else sp),
+                    lambda sp: dict(sp, up=True)
+                    if sp.get('tx') or sp.get('ty') else sp),
                 min_size=0 if racks else profile.get('min_servers', 1),
                 max_size=profile.get('max_servers', 3))))
         pods.append(racks)
